@@ -3,7 +3,7 @@ SPEC = dict(
     model="C24",
     rule="block histories (4-44 blocks) through authorization.STFAlpha2AlphaPrime (direct, result fed back as the next prior) and "
          "authorization.Authorization() (blockchain singleton: prior alpha, latest block slot+guarantees, posterior varphi; posterior becomes "
-         "the next prior) for C=2 (tiny), C=1..7 and C=341 (full): random pools with duplicates from a small authorizer universe, empty/nil/"
+         "the next prior) for C=2 (tiny), C=1..7 and C=341 (full): random pools with duplicates from a small authorizer universe that includes the all-zero hash (zero-filled queues, zero-heavy cases), empty/nil/"
          "full/over-long pools, 1-3 queue sets of Q=80, slots random / consecutive / 0,79,80,2^32-1, 0..C+1 guarantees per block incl. several "
          "per core and authorizers absent from every pool; compared observable = all C posterior pools after every block; the driver also "
          "recomputes every pool with the per-core formula; non-trivial = every block produced pools; distinct by input. The trailing "
